@@ -32,12 +32,12 @@ class FlatApi:
         self.extra = []
         if dep:
             self.dep_pkg = dep
-            self.dep = File(dep.replace(".", "/") + "/common.proto", dep, deps=["google/protobuf/struct.proto"])
+            self.dep = File(dep.replace(".", "/") + "/common.proto", dep, deps=["google/protobuf/struct.proto", "google/protobuf/field_mask.proto"])
             deps.append(self.dep.proto.name)
             self.extra.append(self.dep)
         if sub:
             self.sub_pkg = self.pkg + "." + sub
-            self.sub = File(d + "/" + sub + "/shared.proto", self.sub_pkg, deps=["google/protobuf/struct.proto"])
+            self.sub = File(d + "/" + sub + "/shared.proto", self.sub_pkg, deps=["google/protobuf/struct.proto", "google/protobuf/field_mask.proto"])
             deps.append(self.sub.proto.name)
         self.main = File(d + "/service.proto", self.pkg, deps=deps)
         self.reserved = reserved
@@ -52,6 +52,9 @@ class FlatApi:
         m.field("name", n, "string"); n += 1
         for nm in r.sample(["title", "count", "ratio", "flag", "blob", "size", "code"], r.randint(2, 4)):
             m.field(nm, n, r.choice(SCALAR_POOL)); n += 1
+        if r.random() < 0.6:   # real oneofs must be declared before the synthetic ones of proto3 optional fields
+            m.field("choice_a", n, "string", oneof="choice"); n += 1
+            m.field("choice_b", n, "int32", oneof="choice"); n += 1
         m.field("note", n, "string", optional=True); n += 1
         if r.random() < 0.5:
             m.field("level", n, r.choice(["int32", "bool", "double"]), optional=True); n += 1
@@ -62,9 +65,6 @@ class FlatApi:
         m.field("tags", n, "string", repeated=True); n += 1
         m.field("nums", n, r.choice(["int32", "int64", "uint32", "double"]), repeated=True); n += 1
         m.map_field("labels", n, r.choice(["string", "int32", "bool", "int64"]), r.choice(["string", "int32", "bytes", "bool"])); n += 1
-        if r.random() < 0.6:
-            m.field("choice_a", n, "string", oneof="choice"); n += 1
-            m.field("choice_b", n, "int32", oneof="choice"); n += 1
         if self.reserved:
             for w in r.sample(RESERVED_SAMPLE, r.randint(1, 3)):
                 m.field(w, n, r.choice(["string", "int32", "bool"]), repeated=r.random() < 0.15); n += 1
